@@ -77,7 +77,11 @@ func VerifC11Cursors() {
 	st := newStream(cursorsStream, "cur", &proto.StreamConfig{}, vTimeZero(), s.config)
 	st.SetPartition(0, p)
 	s.metadata.streams[cursorsStream] = st
-	ids := []string{"x", "y"}
+	// two cursor ids of equal length whose CRC-32 (IEEE) is the same - and with it
+	// the checksum of their cursor keys, which differ only in the id (CRC is linear:
+	// equal-length strings that collide still collide with a common suffix). The
+	// checksum selects the cursors partition; it must not identify the cursor.
+	ids := []string{"plumless", "buckeroo"}
 	model := map[string]int64{}
 	steps := vParam("steps", 4)
 	ctx := context.Background()
